@@ -2,32 +2,23 @@ package main
 
 import (
 	"fmt"
+	"os"
 
 	"verif/harness/internal/fsx"
-	"verif/harness/internal/rawfat"
 )
 
 func main() {
-	for _, c := range []struct {
-		k string
-		s int64
-	}{{"fat12", 8192}, {"fat12", 1474560}, {"fat12", 4 << 20}, {"fat16", 2 << 20}, {"fat16", 3 << 20}, {"fat16", 5 << 20}, {"fat16", 32 << 20}, {"fat32", 50 * 1024}, {"fat32", 100 * 512}, {"fat32", 1 << 20}, {"fat32", 34 << 20}, {"fat32", 300 << 20}} {
-		v, err := fsx.CreateMutable(c.k, fsx.Opt{Size: c.s})
-		if err != nil {
-			fmt.Println(c.k, c.s, "ERR", err)
-			continue
-		}
-		r, err := rawfat.Parse(v.Dev, 0, c.s)
-		if err != nil {
-			fmt.Println(c.k, c.s, "block", v.Block, "RAWERR", err)
-			continue
-		}
-		free := 0
-		for i := 2; i < len(r.FAT); i++ {
-			if r.FAT[i] == 0 {
-				free++
+	os.Setenv("SOURCE_DATE_EPOCH", os.Args[1])
+	for _, k := range []string{"fat12"} {
+		sz := map[string]int64{"fat12": 8192, "fat16": 5 << 20, "fat32": 51200}[k]
+		v, _ := fsx.CreateMutable(k, fsx.Opt{Size: sz, Repro: true, Label: "VERIF"})
+		b := v.Dev.Bytes(0, sz)
+		fmt.Printf("%s:", k)
+		for i := 0; i < len(b); i++ {
+			if b[i] != 0 {
+				fmt.Printf(" %x=%02x", i, b[i])
 			}
 		}
-		fmt.Println(c.k, c.s, "block", v.Block, "rawtype", r.Type, "ncl", r.DataClusters, "free", free, "fatsec", r.FATSectors, "rootent", r.RootEntries, "problems", r.Problems, "beyond", r.Beyond)
+		fmt.Println()
 	}
 }
